@@ -474,7 +474,7 @@ Qed.
 
 Lemma fund_conservation s v2 amount existing unc sel sum :
   vals_nonneg s → select_utxos s amount existing unc v2 = Some (sel, sum) →
-  ∃ change, (fund s v2 amount existing unc).2 = RFund (map u_id sel) change ∧
+  ∃ change, (fund s v2 amount existing unc).2 = RFund (map u_id sel) change (tip_h s) ∧
             0 ≤ change ∧ sum_vals sel = amount + change.
 Proof.
   intros Hnn H. pose proof (select_sum _ _ _ _ _ _ _ H) as Hs.
@@ -1187,4 +1187,12 @@ Lemma views_agree s :
 Proof.
   split; [apply balance_spendable_outputs|]. split; [apply spendable_outputs_eligible|].
   split; [apply elem_of_spendable_outputs|]. intros H a i v. by apply fundable_iff_balance.
+Qed.
+
+(** ** The returned basis *)
+Lemma fund_basis s v2 amount existing unc s' sel change b :
+  fund s v2 amount existing unc = (s', RFund sel change b) → b = tip_h s.
+Proof.
+  unfold fund. destruct (amount =? 0); [by intros [= _ _ _ <-]|].
+  destruct (select_utxos _ _ _ _ _) as [[? ?]|]; [|done]. by intros [= _ _ _ <-].
 Qed.
